@@ -6,6 +6,7 @@
 //!   vh drive  <module> --seed S --n N --out F  impl -> spec (records a trace)
 mod common;
 mod der;
+mod prefixlaws;
 mod reschain;
 mod rfc1982;
 
@@ -23,6 +24,8 @@ fn main() {
         ("native", "rfc1982") => rfc1982::native(rest),
         ("replay", "reschain") => reschain::replay(rest),
         ("drive", "reschain") => reschain::drive(rest),
+        ("replay", "prefixlaws") => prefixlaws::replay(rest),
+        ("drive", "prefixlaws") => prefixlaws::drive(rest),
         (a, b) => {
             eprintln!("unknown command {a} {b}");
             std::process::exit(2);
